@@ -22,6 +22,11 @@ def run_contract(prop, target, contract, setups, name=None, to_case=None, post_r
     u.functions.append(fx.describe())
     u.to_case = to_case
     u.replay_module = replay_module
+    # decorators are DROPPED by the extraction; that is only harmless for the ones known not to change what a call computes
+    odd = extract.odd_decorators(fx)
+    if odd:
+        u.outside.append((fx.id, f"decorated with {', '.join(odd)}: a decorator the extraction would drop although it may change what a call returns (caching, wrapping)"))
+        return u
     for label, setup in setups:
         ex = symex.Executor(fx, contract, prop)
         if fname:
